@@ -29,6 +29,12 @@ inductive FOut where
   | panic
   deriving DecidableEq, Repr, Inhabited
 
+/-- did a write-type call succeed? (`File.Write`/`Truncate` stamp the mtime only then) -/
+def FOut.success : FOut → Bool
+  | .n _ none => true
+  | .ok => true
+  | _ => false
+
 structure Handle where
   pos : Int := 0
   readOnly : Bool := false
